@@ -1,5 +1,5 @@
 /-
-Model of /repo/src/selectors_vm/attribute_matcher.rs (all of it) and of the part of
+Model of /repo/src/selectors_vm/attribute_matcher.rs (all of it, as of commit 11ef1d1) and of the part of
 /repo/src/selectors_vm/compiler.rs:98-191 that turns an attribute predicate into a matcher call.
 
 Abstraction: the Rust `AttributeMatcher` holds the input chunk and an `AttributeBuffer` of
@@ -95,20 +95,21 @@ def getAt (xs : Bytes) (n : Nat) : Option UInt8 := xs[n]?
 def attrEqV (cs : CaseSensitivity) (actual operand : Bytes) : Bool :=
   cs.eq actual operand
 
-/-- attribute_matcher.rs:125-133 `matches_splitted_by_whitespace` closure -/
+/-- attribute_matcher.rs:125-135 `matches_splitted_by_whitespace` closure -/
 def matchesSplittedByWhitespaceV (cs : CaseSensitivity) (actual operand : Bytes) : Bool :=
-  (split isAttrWhitespace actual).any fun part => cs.eq part operand
+  !operand.isEmpty
+    && (split isAttrWhitespace actual).any fun part => cs.eq part operand
 
-/-- attribute_matcher.rs:136-148 `has_attr_with_prefix` closure -/
+/-- attribute_matcher.rs:138-151 `has_attr_with_prefix` closure -/
 def hasAttrWithPrefixV (cs : CaseSensitivity) (actual operand : Bytes) : Bool :=
   let prefixLen := operand.length
-  !actual.isEmpty
+  decide (prefixLen ≠ 0)
     && decide (actual.length ≥ prefixLen)
     && (match getTo actual prefixLen with
         | some pre => cs.eq pre operand
         | none => false)
 
-/-- attribute_matcher.rs:151-166 `has_dash_matching_attr` closure -/
+/-- attribute_matcher.rs:154-169 `has_dash_matching_attr` closure -/
 def hasDashMatchingAttrV (cs : CaseSensitivity) (actual operand : Bytes) : Bool :=
   if cs.eq actual operand then true
   else
@@ -122,12 +123,12 @@ def hasDashMatchingAttrV (cs : CaseSensitivity) (actual operand : Bytes) : Bool 
 gets an explicit failure branch. -/
 def checkedSub (a b : Nat) : Option Nat := if b ≤ a then some (a - b) else none
 
-/-- attribute_matcher.rs:169-182 `has_attr_with_suffix` closure; `none` = `value_len - suffix_len`
+/-- attribute_matcher.rs:172-186 `has_attr_with_suffix` closure; `none` = `value_len - suffix_len`
 underflows. `&&` short-circuits, so the subtraction is evaluated only after the two guards held. -/
 def hasAttrWithSuffixV (cs : CaseSensitivity) (actual operand : Bytes) : Option Bool :=
   let suffixLen := operand.length
   let valueLen := actual.length
-  if actual.isEmpty then some false
+  if ¬ (suffixLen ≠ 0) then some false
   else if ¬ (valueLen ≥ suffixLen) then some false
   else
     match checkedSub valueLen suffixLen with
@@ -147,7 +148,7 @@ def memchr2 (lo up : UInt8) : Bytes → Option Nat
   | [] => none
   | h :: t => if h == lo || h == up then some 0 else (memchr2 lo up t).map (· + 1)
 
-/-- attribute_matcher.rs:191-203 the inner `fn search` (a `loop`), with explicit fuel.
+/-- attribute_matcher.rs:195-207 the inner `fn search` (a `loop`), with explicit fuel.
 Each iteration either returns or strictly shortens `haystack`, so `haystack.length + 1` iterations
 suffice (`search_fuel_irrelevant` in `Lemmas/AttrMatch.lean`). Running out of fuel is `none` of the
 *outer* option: it would mean the model, not the code, is wrong. -/
@@ -173,7 +174,7 @@ def search (haystack rest : Bytes) (cs : CaseSensitivity) (firstByteSearcher : B
     Option Bool :=
   searchLoop rest cs firstByteSearcher (haystack.length + 1) haystack
 
-/-- attribute_matcher.rs:185-217 `has_attr_with_substring` closure (`none` = fuel exhausted). -/
+/-- attribute_matcher.rs:189-221 `has_attr_with_substring` closure (`none` = fuel exhausted). -/
 def hasAttrWithSubstringV (cs : CaseSensitivity) (actual operand : Bytes) : Option Bool :=
   match operand with
   | [] => some false                                   -- `split_first()` is `None`
@@ -254,7 +255,7 @@ def evalOpV (op : Op) (cs : CaseSensitivity) (actual operand : Bytes) : Option B
   | .suffix => hasAttrWithSuffixV cs actual operand
   | .substring => hasAttrWithSubstringV cs actual operand
 
-/-- attribute_matcher.rs:117-217: `attr_eq`, `matches_splitted_by_whitespace`,
+/-- attribute_matcher.rs:117-221: `attr_eq`, `matches_splitted_by_whitespace`,
 `has_attr_with_prefix`, `has_dash_matching_attr`, `has_attr_with_suffix`, `has_attr_with_substring`,
 selected by the operator as compiler.rs:164-183 does. -/
 def AttributeMatcher.evalOp (m : AttributeMatcher) (op : Op) (operand : AttrExprOperands) :
@@ -278,7 +279,7 @@ def makeAsciiLowercase (bs : Bytes) : Bytes := bs.map toAsciiLowercase
 
 /-- compiler.rs:140-191 `Expr<OnAttributesExpr>::compile`, applied to a matcher
 (`negation` is compiler.rs:98-108). Note that `AttributeExists` does *not* lower-case at compile
-time (compiler.rs:150-151): the parser already hands over `local_name_lower` (ast.rs:126-130). -/
+time (compiler.rs:150-151): the parser already hands over `local_name_lower` (ast.rs:123-127). -/
 def compiledAttrExpr (negation : Bool) (e : OnAttributesExpr) (m : AttributeMatcher) : Option Bool :=
   let r : Option Bool :=
     match e with
@@ -364,7 +365,7 @@ def AttributeFlags.toCaseSensitivity (f : AttributeFlags) (localNameLower : Byte
 
 /-- `[name op "value" flag]` from selector text to the lol-html predicate: parser.rs:3168-3201 of
 selectors (lower-cased local name decides the case mode; the component carries `local_name` if it
-is already lower-case, else `local_name_lower`) and ast.rs:131-158 of lol-html (takes `local_name`,
+is already lower-case, else `local_name_lower`) and ast.rs:128-155 of lol-html (takes `local_name`,
 resp. `local_name_lower`) — in both cases the lower-cased name. -/
 def parseAttributeSelector (localName value : Bytes) (flags : AttributeFlags) (op : Op) :
     OnAttributesExpr :=
